@@ -532,7 +532,33 @@ def _always_raises(body) -> List[bool]:
     return [False]
 
 
+def rule_conditions_precedence(ctx: Ctx) -> None:
+    """C10.4: the margin requirement applied to a symbol is the one configured for that symbol; the default conditions are only the
+    fallback.  get_conditions must consult the per-symbol table first (`table.get(symbol, default)` or `table.get(symbol) or default`)."""
+    from .. import norm as N
+    gc = ctx.func(f"{MARGIN}.MarginLoans.get_conditions")
+    rets = [r.value for r in C.walk_shallow(gc.node) if isinstance(r, ast.Return) and r.value is not None]
+    sym = gc.params[1]
+    ok = bool(rets)
+    why = ""
+    for r in rets:
+        e = N.expand(gc, r)
+        txt = N.canon(e).replace(" ", "")
+        first = e.values[0] if isinstance(e, ast.BoolOp) and isinstance(e.op, ast.Or) else (e.body if isinstance(e, ast.IfExp) else e)
+        ftxt = N.canon(first).replace(" ", "")
+        good = ftxt.startswith(f"self._conditions.get({sym}") or ftxt.startswith(f"self._conditions[{sym}]")
+        if isinstance(e, ast.IfExp):
+            good = good or f"{sym}inself._conditions" in N.canon(e.test).replace(" ", "")
+        ok &= good
+        why = txt[:80]
+    ctx.check(ok, "C10.4", "conditions set for a symbol take precedence over the default conditions", gc, rets[0] if rets else gc.node,
+              "self._conditions.get(symbol, default)", f"get_conditions returns '{why}': the default conditions win over (or replace) the ones configured for "
+              "the symbol, so a symbol with a stricter margin requirement is checked against the laxer default and loans that do not meet its requirement "
+              "are granted", key_text="conditions precedence")
+
+
 def run(ctx: Ctx) -> None:
+    rule_conditions_precedence(ctx)
     rule_price_freshness(ctx)
     rule_no_swallowed_price(ctx)
     rule_noloans(ctx)
